@@ -382,3 +382,44 @@ def trefethen_ctor(src, cls: ast.ClassDef, strip: bool):
     if table != want:
         raise Unsupported(f"{cls.name}: structure {table} differs from the modelled composition")
     return {"base": base, "domain": dom}
+
+
+# ------------------------------------------------------------------------------------------- series length (Fejer rules)
+NSUM_FORMS = {"FejerFirst": "nsum = npoints // 2", "FejerSecond": "nsum = (npoints + 1) // 2"}
+
+
+def _nat_expr(e: ast.expr) -> str:
+    """Integer expression over `nsum` and literals with + and - (Python ints -> Coq nat; a negative length is an
+    empty np.arange, as truncated subtraction gives)."""
+    if isinstance(e, ast.Name) and e.id == "nsum":
+        return "v_nsum"
+    if isinstance(e, ast.Constant) and isinstance(e.value, int) and not isinstance(e.value, bool) and e.value >= 0:
+        return str(e.value)
+    if isinstance(e, ast.BinOp) and isinstance(e.op, (ast.Add, ast.Sub)):
+        return f"({_nat_expr(e.left)} {'+' if isinstance(e.op, ast.Add) else '-'} {_nat_expr(e.right)})"
+    raise Unsupported(f"series length expression {ast.unparse(e)}")
+
+
+def series_terms(src, cls: ast.ClassDef):
+    """Number of terms of the weight series: `nsum = <verbatim>`; `j = np.arange(L) + 1`; every np.ones(..) in the
+    constructor has the same length L.  -> Definition <Class>_terms (v_nsum : nat) : nat := L."""
+    fn = _init_of(cls)
+    stmts = [ast.unparse(s) for s in fn.body]
+    if NSUM_FORMS[cls.name] not in stmts:
+        raise Unsupported(f"{cls.name}: `{NSUM_FORMS[cls.name]}` not found (the hand model of nsum no longer applies)")
+    length = None
+    for s in fn.body:
+        if (isinstance(s, ast.Assign) and len(s.targets) == 1 and isinstance(s.targets[0], ast.Name) and s.targets[0].id == "j"):
+            v = s.value
+            ok = (isinstance(v, ast.BinOp) and isinstance(v.op, ast.Add) and isinstance(v.right, ast.Constant) and v.right.value == 1
+                  and isinstance(v.left, ast.Call) and ast.unparse(v.left.func) == "np.arange" and len(v.left.args) == 1 and not v.left.keywords)
+            if not ok or length is not None:
+                raise Unsupported(f"{cls.name}: series index `{ast.unparse(s)}` is not `j = np.arange(L) + 1`")
+            length = v.left.args[0]
+    if length is None:
+        raise Unsupported(f"{cls.name}: series index j not found")
+    for node in ast.walk(fn):
+        if isinstance(node, ast.Call) and ast.unparse(node.func) == "np.ones":
+            if len(node.args) != 1 or ast.unparse(node.args[0]) != ast.unparse(length):
+                raise Unsupported(f"{cls.name}: np.ones({ast.unparse(node.args[0]) if node.args else ''}) does not have the length of j ({ast.unparse(length)})")
+    return f"Definition {cls.name}_terms (v_nsum : nat) : nat := ({_nat_expr(length)})%nat.", ast.unparse(length)
